@@ -3,6 +3,7 @@ package main
 import (
 	"math"
 	"sync"
+	"time"
 
 	"github.com/deadsy/sdfx/sdf"
 	v2 "github.com/deadsy/sdfx/vec/v2"
@@ -14,8 +15,9 @@ import (
 // scripted renderers: emit a known numbered sequence from 1..P producers
 
 type script3 struct {
-	closeAt map[int]bool // single producer: call Close() before writing batch i
-	pre     func()       // runs first thing in Render (fault injection)
+	stall   time.Duration // real-time pause after the first batch
+	closeAt map[int]bool  // single producer: call Close() before writing batch i
+	pre     func()        // runs first thing in Render (fault injection)
 	jid     uint32
 	batches [][][]*sdf.Triangle3 // per producer
 }
@@ -34,6 +36,9 @@ func (r *script3) Render(s sdf.SDF3, out sdf.Triangle3Writer) {
 					out.Close() // a renderer may flush in the middle of its output
 				}
 				out.Write(b)
+				if bi == 0 && r.stall > 0 {
+					time.Sleep(r.stall)
+				}
 			}
 		}
 	} else {
@@ -56,6 +61,7 @@ func (r *script3) Render(s sdf.SDF3, out sdf.Triangle3Writer) {
 }
 
 type script2 struct {
+	stall   time.Duration
 	closeAt map[int]bool
 	pre     func()
 	jid     uint32
@@ -76,6 +82,9 @@ func (r *script2) Render(s sdf.SDF2, out sdf.Line2Writer) {
 					out.Close()
 				}
 				out.Write(b)
+				if bi == 0 && r.stall > 0 {
+					time.Sleep(r.stall)
+				}
 			}
 		}
 	} else {
